@@ -14,7 +14,8 @@ CFG = {
                   "through the wall-clock watchdog.  Tie A: real agents under synctest, Close injected at every position; the driver "
                   "replays every session on the model (every transition validated by `step`) and compares quiescent states.",
     "components": [{"component": "close", "session_start": "new", "timeout_quick": 120, "timeout_thorough": 900, "shrink_s": 40,
-                    "trivial_regex": r"^(skip|error|bad-op.*)$"}],
+                    "trivial_regex": r"^(skip|error|bad-op.*)$"},
+                   {"component": "atcclose", "timeout_quick": 60, "timeout_thorough": 300, "trivial_regex": r"^(skip|bad-op.*)$"}],
     "rule": "quick: 10 + 8 hand-written boundary sessions + 8 generated base sequences x every 3rd injection position x 6 closing variants "
             "(API goroutine, graceful, from a handler, concurrent, repeated, handler+API); thorough: 150 base sequences x EVERY position. "
             "ICE-TCP: a REAL TCPMuxDefault (fake listener, ReadBufferSize 1..2), passive TCP host candidate, a client that sends more "
